@@ -1,3 +1,6 @@
 claim("C01", "reference-model monitor over exhaustive small scopes + random large configurations",
       "Every split yielded by the real splitters (and temporal_train_test_split) is compared with an independent integer-arithmetic reference of the documented tiling, exhaustively for all n/window/step/fh inside a small scope and on seeded random large configurations; held means no disagreement on those executions.",
       "reference model in lib/vmon/props/c01.py; compatibility layer; only positions/integer indices, out-of-sample horizons")
+claim("C02", "reference-model monitor (int set arithmetic) + icontract class invariant and conversion postconditions on the real ForecastingHorizon",
+      "All conversion laws are compared with Python int arithmetic for every subset of a small step range x cutoffs x container types (exhaustive in that scope), random large sets, the cache, and every rejection class; the class invariant and postconditions also run inside every other forecasting workload.",
+      "int arithmetic reference; compatibility layer aliases pd.Int64Index to pd.Index so non-integer pd.Index inputs are not judged")
